@@ -138,6 +138,8 @@ class Lower:
                 if name == 'fabs': return z3.If(xs[0] >= 0, xs[0], -xs[0])
                 if name == 'sqrt':
                     v = z3.FreshConst(s.R, 'sqrt'); s.side.append(z3.And(v >= 0, v * v == xs[0])); return v
+                if name == 'hypot':
+                    v = z3.FreshConst(s.R, 'hypot'); s.side.append(z3.And(v >= 0, v * v == xs[0] * xs[0] + xs[1] * xs[1])); return v
             if m == 'FP':
                 if name == 'fabs': return z3.fpAbs(xs[0])
                 if name == 'sqrt': return z3.fpSqrt(s.rm, xs[0])
